@@ -19,7 +19,8 @@ Two percentile functions appear, and every theorem says which one it is about:
   exactly, the float rank within relative `2u + u²` (`u = 2⁻⁵³`) of the ideal rank, and
   `float_percentile_close`: `|float − ideal| ≤ floatErr s M = spread·(2u+u²)·(n−1) + 12·M·u`; hence
   (`float_percentile_laws`) monotonicity in `p`, `≤ max` and p50 = median hold for the float values up to that
-  error.  (Exact `≤ max` / exact monotonicity of the float function are not claimed.)
+  error.  (Exact `≤ max` / exact monotonicity of the float function are not proved; the harness checks both
+  exactly on every real output.)
 
 `SizeOk n` (`n ≤ 2^53`) only says the sample count itself is exactly representable as a double.
 Not claimed (by design of the code, stated in the property plan): `duration` and `unit` read warm-up records too.
@@ -338,6 +339,17 @@ example : SizeOk [1, 2, 3, 4].length := by unfold SizeOk; norm_num
 example : (percentileD [1, 2, 3, 4] 50).toOption = some (5 / 2) ∧ (percentileD [1, 2, 7] 50).toOption = some 2 ∧
     (percentileD [1, 2, 7] 101).toOption = none := by decide +kernel
 example : fl (1 / 10) = 3602879701896397 / 36028797018963968 ∧ fl (1 / 2) = 1 / 2 := by decide +kernel
+example : (∀ v ∈ ([1, 3 / 2, 7] : List Rat), fl v = v) ∧ (∀ v ∈ ([1, 3 / 2, 7] : List Rat), |v| ≤ 7) := by
+  constructor <;> intro v hv <;> simp only [List.mem_cons, List.not_mem_nil, or_false] at hv <;>
+    rcases hv with rfl | rfl | rfl
+  · decide +kernel
+  · decide +kernel
+  · decide +kernel
+  · norm_num
+  · norm_num [abs_of_nonneg]
+  · norm_num
+example : floatErr [1, 3 / 2, 7] 7 ≤ 1 / 10 ^ 13 := by
+  unfold floatErr spread uro; norm_num
 /-- a well-formed store with a warm-up and two normal records, one failed request -/
 def exRecs : List Rec :=
   [⟨nServiceTime, some ['t'], some ['b'], .warmup, 250, some ['m', 's'], some false, 536000⟩,
